@@ -12,8 +12,88 @@ def _mk(prop, tier, seed, level, rule, assumptions=None, exhaustive=False):
     return Verdict(prop, tier, seed, level, rule, ASSUME_COMMON + (assumptions or []), exhaustive)
 
 
+def _cleanup(res, keep=False):
+    """Generated shapefiles are removed at the end of a passing run (kept on violation)."""
+    import os
+    import shutil
+    d = os.path.join(res['_out'], 'files')
+    if not keep and os.path.isdir(d):
+        shutil.rmtree(d)
+
+
 def _profiles(tier, quick=('checked',), thorough=('checked', 'release')):
     return thorough if tier == 'thorough' else quick
+
+
+# --------------------------------------------------------------------------------------- C01
+def c01(tier, seed, case=None):
+    import check_c01
+    v = _mk('C01', tier, seed, 'exploration',
+            'one case = a sequence of 1..N shapes of one type (special density 0 / 0.2 / 0.5 / 1.0 incl. +-inf, subnormals, values '
+            'around NO_DATA, NaN in Z/M; exact-pool cases) written once and read back through 8 cursor routes and, every 4th case, '
+            '10 path routes ({generic, concrete} x {iterate, nth, read-all} x {with, without .shx}); oracle = dump of the input with '
+            'the measure normalisation of the property; ring-role changes adjudicated offline by exact rational area. distinct = '
+            'sequence of (type, part-length multiset, special classes present); non-trivial = n>=2 or >=2 parts or a special value',
+            ['ring roles are compared only through exact arithmetic (fractions.Fraction); rings with a non-finite coordinate carry no role claim'])
+    runs = [run_engine('C01', 'c01', prof, tier, seed, case=case) for prof in _profiles(tier)]
+    if tier == 'thorough' and not case:
+        runs.append(run_miri('C01', 'c01', tier, seed, opts={'n': 6}, shards=13))
+    pending = []
+    for r in runs:
+        v.add_run(r)
+        pending += r['pending']
+    counters, viols, samples, distinct = check_c01.adjudicate(pending)
+    v.add_offline('check_c01.role-adjudication', counters['role_changes'], distinct, samples, viols, counters,
+                  guards={'role changes adjudicated': (counters['role_changes'], 0 if case else 10)})
+    return v
+
+
+# --------------------------------------------------------------------------------------- C02
+def c02(tier, seed, case=None):
+    import check_c02
+    v = _mk('C02', tier, seed, 'exploration',
+            'one case = one .shp produced by the real writer from 0..N generated shapes of one type (cursor destinations and '
+            'from_path files, ended by drop or by explicit finalize), validated byte by byte by the independent strict decoder '
+            '(shpref.py) and compared with the model log of what was handed to the writer. distinct = (type, record count, record '
+            'lengths); non-trivial = >= 2 records or >= 2 parts or special values',
+            ['shpref.py implements the 1998 ESRI whitepaper layout correctly (it is cross-checked by decoding files it encoded itself in C03)'])
+    r = run_engine('C02', 'c02', 'checked', tier, seed, case=case)
+    v.add_run(r)
+    counters, viols, samples, distinct = check_c02.check_c02(r['_out'])
+    v.add_offline('check_c02.strict-validator', counters['files'], distinct, samples, viols, counters,
+                  guards={'files validated': (counters['files'], 1 if case else 13 * 100), 'records decoded': (counters['records'], 0 if case else 1000)})
+    if tier == 'thorough' and not case:
+        r2 = run_engine('C02', 'c02', 'release', tier, seed + 1000003)
+        v.add_run(r2)
+        c2, viols2, samples2, d2 = check_c02.check_c02(r2['_out'])
+        v.add_offline('check_c02.strict-validator(release build, second seed)', c2['files'], d2, samples2, viols2, c2)
+        _cleanup(r2)
+    _cleanup(r, keep=bool(viols))
+    return v
+
+
+# --------------------------------------------------------------------------------------- C04
+def c04(tier, seed, case=None):
+    import check_c02
+    v = _mk('C04', tier, seed, 'exploration',
+            'one case = a .shp/.shx pair written by the real writer from n = 0..N shapes of varying sizes (cursor and from_path '
+            'destinations); the .shx bytes are judged offline against an independent walk of the .shp; the reader-side equalities '
+            '(shape_count, read_nth_shape(i) for every i in descending order, None past the end, iteration with == without index, '
+            'size_hint before every next) in-process. distinct = (type, n, record lengths); non-trivial = n >= 2',
+            [])
+    r = run_engine('C04', 'c04', 'checked', tier, seed, case=case)
+    v.add_run(r)
+    counters, viols, samples, distinct = check_c02.check_c04(r['_out'])
+    v.add_offline('check_c04.index-vs-independent-walk', counters['files'], distinct, samples, viols, counters,
+                  guards={'files with non-arithmetic record offsets': (counters['non_arithmetic_offset_files'], 0 if case else 100)})
+    if tier == 'thorough' and not case:
+        r2 = run_engine('C04', 'c04', 'release', tier, seed + 1000003)
+        v.add_run(r2)
+        c2, viols2, samples2, d2 = check_c02.check_c04(r2['_out'])
+        v.add_offline('check_c04.index-vs-independent-walk(release build, second seed)', c2['files'], d2, samples2, viols2, c2)
+        _cleanup(r2)
+    _cleanup(r, keep=bool(viols))
+    return v
 
 
 # --------------------------------------------------------------------------------------- C05
@@ -86,4 +166,4 @@ def c19(tier, seed, case=None):
     return v
 
 
-PLANS = {'C05': c05, 'C06': c06, 'C16': c16, 'C18': c18, 'C19': c19}
+PLANS = {'C02': c02, 'C04': c04, 'C01': c01, 'C05': c05, 'C06': c06, 'C16': c16, 'C18': c18, 'C19': c19}
